@@ -89,6 +89,18 @@ func (in *Interp) fmtValue(t types.Type, v Value, verb rune, plus bool, depth in
 			return in.strOrSym(x)
 		case *Term:
 			if !x.IsConst() {
+				if s, w, signed, _ := scalarSort(t); s == SBV && (verb == 'v' || verb == 'd') && in.symFmtInts {
+					// decimal rendering by the real strconv, interpreted symbolically
+					var r Value
+					if signed {
+						r = in.callFunction(in.P.funcByName("strconv", "FormatInt"), []Value{tSExt(x, 64), mkBV(64, 10)}, nil, nil, nil)
+					} else {
+						r = in.callFunction(in.P.funcByName("strconv", "FormatUint"), []Value{tZExt(x, 64), mkBV(64, 10)}, nil, nil, nil)
+					}
+					_ = w
+					in.symParts = append(in.symParts, r.(Str))
+					return fmt.Sprintf("\x00SYM%d\x00", len(in.symParts)-1)
+				}
 				in.stubsHit["fmt: symbolic scalar rendered as placeholder"] = true
 				return symPlaceholder
 			}
@@ -200,6 +212,10 @@ func (in *Interp) strOrSym(v Value) string {
 	s := v.(Str)
 	if s.IsConcrete() {
 		return s.Concrete()
+	}
+	if in.symFmtInts {
+		in.symParts = append(in.symParts, s)
+		return fmt.Sprintf("\x00SYM%d\x00", len(in.symParts)-1)
 	}
 	in.stubsHit["fmt: symbolic string bytes rendered as placeholder"] = true
 	var sb strings.Builder
@@ -414,10 +430,14 @@ func (in *Interp) newStructPtr(pkg, typ string, cells ...Value) Value {
 func init() {
 	m := modelTable
 	m["fmt.Sprintf"] = func(in *Interp, fr *Frame, args []Value, call *ssa.CallCommon) Value {
-		return mkStr(in.sprintf(concreteStr(args[0], "format string"), in.ifaceArgs(args[1])).s)
+		in.symFmtInts = true
+		defer func() { in.symFmtInts = false; in.symParts = nil }()
+		return in.spliceSym(in.sprintf(concreteStr(args[0], "format string"), in.ifaceArgs(args[1])).s)
 	}
 	m["fmt.Sprint"] = func(in *Interp, fr *Frame, args []Value, call *ssa.CallCommon) Value {
-		return mkStr(in.sprint(in.ifaceArgs(args[0]), false))
+		in.symFmtInts = true
+		defer func() { in.symFmtInts = false; in.symParts = nil }()
+		return in.spliceSym(in.sprint(in.ifaceArgs(args[0]), false))
 	}
 	m["fmt.Sprintln"] = func(in *Interp, fr *Frame, args []Value, call *ssa.CallCommon) Value {
 		return mkStr(in.sprint(in.ifaceArgs(args[0]), true))
@@ -564,4 +584,26 @@ func (in *Interp) errorsAs(err, target Iface, depth int) bool {
 		err = in.callMethod(f, err.v).(Iface)
 	}
 	return false
+}
+
+// spliceSym replaces the \x00SYMn\x00 markers left by fmtValue with the
+// symbolic decimal strings they stand for.
+func (in *Interp) spliceSym(s string) Value {
+	if len(in.symParts) == 0 || !strings.Contains(s, "\x00SYM") {
+		return mkStr(s)
+	}
+	res := Str{}
+	for {
+		i := strings.Index(s, "\x00SYM")
+		if i < 0 {
+			break
+		}
+		j := strings.Index(s[i+1:], "\x00") + i + 1
+		var n int
+		fmt.Sscanf(s[i+4:j], "%d", &n)
+		res = strConcat(res, mkStr(s[:i]))
+		res = strConcat(res, in.symParts[n])
+		s = s[j+1:]
+	}
+	return strConcat(res, mkStr(s))
 }
